@@ -4,6 +4,7 @@ import json
 import os
 
 import findings
+import macros
 import vlib
 from vlib import Check, log, run_replay, run_tlc
 
@@ -43,7 +44,7 @@ def replay_file(pid, path):
 def c01(tier):
     c = new_check("C01", tier)
     meta = vlib.gen_dfa()
-    r = run_tlc("mc/MC_LangEq", name="MC_LangEq")
+    r = run_tlc("mc/MC_LangEq", name="MC_LangEq", coverage=False)
     c.add_tlc(r, "complete product DFA x RFC-regex derivatives, all 20 types, all word lengths")
     c.add_samples(r.cases_path)
     c.extra["dfa"] = {k: {"states": v["states"], "transitions": v["transitions"], "cache": v["cache"]}
@@ -51,6 +52,10 @@ def c01(tier):
     if not r.error:
         rr = run_replay(r.cases_path, name="C01-cover")
         c.add_replay(rr, "transition cover of the product automaton through every construction route")
+    r2 = run_tlc("mc/MC_RefDfaEq", name="MC_RefDfaEq", coverage=False)
+    c.add_tlc(r2, "the membership accelerator spec/RefDfa.tla equals the RFC regexes (complete product)")
+    for model, cfg in cfgs("mc/MC_Lex", tier, [""]):
+        mc_replay(c, model, cfg, "every string (garbage included) of bounded length over a boundary alphabet, all 20 types")
     return c.finish(
         rule="one case per transition of the product automaton (low and high symbol of each cell); "
              "non-trivial = distinct (type, word) pairs",
@@ -268,7 +273,73 @@ def c16(tier):
                     assumptions=TRUST)
 
 
+def c13(tier):
+    c = new_check("C13", tier)
+    r = run_tlc("mc/MC_Incl", name="MC_Incl", coverage=False)
+    c.add_tlc(r, "complete: L(U) = L(I) /\\ ASCII* for the 9 URI/IRI type pairs; X = X-reference with a scheme, both families")
+    r2 = run_tlc("mc/MC_RefDfaEq", name="MC_RefDfaEq", coverage=False)
+    c.add_tlc(r2, "the membership accelerator equals the RFC regexes")
+    for model, cfg in cfgs("mc/MC_Parts", tier, ["", "iri"]):
+        mc_replay(c, model, cfg, "conversions between the four kinds on every enumerated valid reference (borrowed and owned)")
+    for model, cfg in cfgs("mc/MC_Editor", tier, [""]):
+        mc_replay(c, model, cfg, "editing results identical in both families on ASCII input")
+    for model, cfg in cfgs("mc/MC_Resolve", tier, [""]):
+        mc_replay(c, model, cfg, "resolution results identical in both families")
+    for model, cfg in cfgs("mc/MC_Equiv", tier, [""]):
+        mc_replay(c, model, cfg, "hash / comparison of a URI agree with its IRI views")
+    return c.finish(rule="language facts decided on complete product automata; conversions and family agreement on every "
+                         "case of the bounded models of C02, C05, C06, C08",
+                    assumptions=TRUST)
+
+
+def c14(tier):
+    c = new_check("C14", tier)
+    c.crash_props = []
+    meta = vlib.gen_dfa()
+    r = run_tlc("mc/MC_LangEq", name="MC_LangEq", coverage=False)
+    c.add_tlc(r, "transition cover words (valid and invalid) for all 20 types")
+    c.add_samples(r.cases_path, 2)
+    if not r.error:
+        rr = run_replay(r.cases_path, name="C14-cover")
+        c.add_replay(rr, "every route out reproduces the text, every route in gives the constructor's verdict")
+    for model, cfg in cfgs("mc/MC_Lex", tier, [""]):
+        mc_replay(c, model, cfg, "bounded-exhaustive strings through every route")
+    for model, cfg in cfgs("mc/MC_Equiv", tier, [""]):
+        mc_replay(c, model, cfg, "comparison with plain strings is plain text comparison, on groups of equivalent spellings")
+    return c.finish(rule="C01's words through Display/Debug/as_str/as_bytes/AsRef/Borrow/From/into_*/to_owned/Clone/Serialize and "
+                         "FromStr/TryFrom/from_vec/serde (str, string, bytes, byte_buf, borrowed)/serde_json",
+                    assumptions=TRUST + ["serde_json, serde::de::value deserializers"])
+
+
+def c17(tier):
+    c = new_check("C17", tier)
+    for model, cfg in cfgs("mc/MC_Macro", tier, [""]):
+        r = run_tlc(model, cfg=cfg, name=os.path.basename(cfg), coverage=False)
+        c.add_tlc(r, "literals (all short strings over an escape-rich alphabet + composed long ones) with verdict and RFC components")
+        c.add_samples(r.cases_path, 3)
+        if not r.error:
+            macros.run(c, r.cases_path)
+    return c.finish(rule="one macro invocation per literal; accepted literals are compiled into constants whose text, "
+                         "components and equality with the run-time parse are inspected; rejected literals must each "
+                         "produce a compile error (cargo check --message-format=json, span -> literal)",
+                    assumptions=TRUST + ["rustc diagnostics spans (--message-format=json)"])
+
+
+def c18(tier):
+    c = new_check("C18", tier)
+    for model, cfg in cfgs("mc/MC_DataUrl", tier, [""]):
+        mc_replay(c, model, cfg, "composed data-URL candidates, near misses and all short suffixes after three prefixes")
+    return c.finish(rule="strings around the data-URL shape; TLC proves the re-scan and stored-offset formulations agree "
+                         "and prints verdict, media type, base64 flag, data and (canonical base64 only) decoded bytes",
+                    assumptions=TRUST + ["the base64 crate's treatment of non-canonical padding / trailing bits is not "
+                                         "second-guessed (cases marked 'unspecified')"])
+
+
 PIPELINES = {
+    "C18": c18,
+    "C17": c17,
+    "C13": c13,
+    "C14": c14,
     "C15": c15,
     "C16": c16,
     "C04": c04,
